@@ -273,4 +273,64 @@ theorem todoAll_init (threads : List (List Op)) : todoAll (threads.map Thread.of
     simp only [todoAll, List.map_cons, List.flatten_cons] at ih ⊢
     rw [ih]; rfl
 
+/-! ## `to_json` with values -/
+
+theorem getJ_map_metric (k : String) (l : List (String × MetricVal)) :
+    getJ k (l.map (fun kv => (kv.1, JsonEntry.metric kv.2))) = (lookup k l).map JsonEntry.metric := by
+  induction l with
+  | nil => rfl
+  | cons h t ih =>
+    obtain ⟨k', v'⟩ := h
+    by_cases hk : k' = k
+    · simp [getJ, lookup, hk]
+    · simp [getJ, lookup, hk, ih]
+
+theorem getJ_putJ_self (k : String) (v : JsonEntry) (l : List (String × JsonEntry)) :
+    getJ k (putJ k v l) = some v := by
+  induction l with
+  | nil => simp [putJ, getJ]
+  | cons h t ih =>
+    obtain ⟨k', v'⟩ := h
+    by_cases hk : k' = k
+    · simp [putJ, getJ, hk]
+    · simp [putJ, getJ, hk, ih]
+
+theorem getJ_putJ_ne {k k' : String} (v : JsonEntry) (l : List (String × JsonEntry)) (h : k' ≠ k) :
+    getJ k (putJ k' v l) = getJ k l := by
+  induction l with
+  | nil => simp [putJ, getJ, h]
+  | cons hd t ih =>
+    obtain ⟨k'', v''⟩ := hd
+    by_cases hk : k'' = k'
+    · subst hk; simp [putJ, getJ, h]
+    · by_cases hk2 : k'' = k
+      · subst hk2; simp [putJ, getJ, hk]
+      · simp [putJ, getJ, hk, hk2, ih]
+
+theorem keys_putJ (k : String) (v : JsonEntry) (l : List (String × JsonEntry)) :
+    (putJ k v l).map Prod.fst
+      = if (l.map Prod.fst).contains k then l.map Prod.fst else l.map Prod.fst ++ [k] := by
+  induction l with
+  | nil => simp [putJ]
+  | cons h t ih =>
+    obtain ⟨k', v'⟩ := h
+    by_cases hk : k' = k
+    · subst hk; simp [putJ]
+    · have hk' : (k == k') = false := by
+        simp only [beq_eq_false_iff_ne, ne_eq]
+        exact fun h => hk h.symm
+      simp only [putJ, hk, if_false, List.map_cons, ih, List.contains_cons, hk', Bool.false_or]
+      split <;> simp
+
+theorem incAmt_le_incSum_of_mem (k : String) (op : Op) (ops : List Op) (h : op ∈ ops) :
+    incAmt k op ≤ incSum k ops := by
+  induction ops with
+  | nil => simp at h
+  | cons o t ih =>
+    simp only [incSum, List.map_cons, List.sum_cons] at ih ⊢
+    simp only [List.mem_cons] at h
+    rcases h with rfl | h
+    · omega
+    · have := ih h; omega
+
 end IB.Metrics
